@@ -598,6 +598,8 @@ class Compiler:
         if isinstance(obj, Obj) and obj.kind == "wire":
             if f.attr == "_send_user_message":
                 ins = self.mk("wire_send", (obj.name, self.expr(call.args[0], env)), s, env)
+            elif f.attr == "_unlink_channel":
+                ins = self.mk("wire_unlink", obj.name, s, env)     # the channel is released from the transport's table
             else:
                 ins = self.mk("nop", "transport." + f.attr, s, env)
             ins.next = k["next"]
